@@ -14,6 +14,7 @@ Next == l <= Len(Runs) /\ l' = l + 1
 
 Monotone(s) == \A i \in 1..(Len(s) - 1) :
                   \/ s[i+1][2] # s[i][2]                      \* counters were reset for a new evaluation
+                  \/ s[i+1][1] = 0                           \*   (the reset stores 0; consecutive sub-evaluations may have equal totals)
                   \/ s[i+1][1] >= s[i][1]
 Bounded(s) == \A i \in 1..Len(s) : s[i][1] <= s[i][2] \/ s[i][2] = 0
 RunOK(r) ==
